@@ -25,6 +25,15 @@ def main(tier):
     total += n; nontriv += nt; samples.append(progfam.prog_text(json.loads(behs[0])))
     n2, _ = progfam.replay(chk, behs[: len(behs)//2], 2, ['--eager', '--matrix'], OWNED, tag='simM')
     total += n2
+    # the same programs as one lazy expression each (operands with pending transforms)
+    n3, _ = progfam.replay(chk, behs, 2, [], OWNED, tag='simL')
+    total += n3
+    # (3) exhaustive: two transformed leaves (5 generators each, pending) x 3 ops x node transform
+    ebehs, r = progfam.generate('Expr_T2.cfg', module='Expr')
+    n, nt = progfam.replay(chk, ebehs, 4, [], OWNED, tag='T2', mode='expr')
+    total += n; nontriv += nt; samples.append(progfam.expr_text(json.loads(ebehs[7])))
+    n, nt = progfam.replay(chk, ebehs, 4, ['--eager'], OWNED, tag='T2E', mode='expr')
+    total += n
     if tier == 'thorough':
         behs, r = progfam.generate('GenC02triples.cfg', timeout=3000)
         n, nt = progfam.replay(chk, behs, 1, ['--eager'], OWNED, tag='triples', timeout=6000)
